@@ -37,7 +37,10 @@ def run(ctx, report):
     from . import dfxp_reader_fold
     report.section("generated DFXP documents", dfxp_reader_fold.run, ctx, report, {
         "italics": ("R-DOC-STYLE", "1"), "roundtrip": ("R-ROUNDTRIP", "1")})
-    report.not_decided += ["that the same characters are italic / bold / underlined after a round trip",
+    from . import sami_reader_fold
+    report.section("generated SAMI documents", sami_reader_fold.run, ctx, report, {
+        "styles": ("R-DOC-STYLE", "1"), "balanced": ("R-SPAN-TYPESTATE", "2"), "roundtrip": ("R-ROUNDTRIP", "1")})
+    report.not_decided += ["that the same characters are italic / bold / underlined after a round trip beyond the folded sets",
                            "spans across breaks and layout groups"]
 
 
